@@ -26,6 +26,7 @@ def gen(module):
 CHECKS = {
     "C05": gen("c05"),
     "C16": gen("c16"),
+    "C14": gen("c14"),
     "C17": gen("c17"),
     "C06": gen("c06"),
     "C15": gen("c15"),
@@ -37,7 +38,7 @@ CHECKS = {
     "C09": rust("model_checking", [("std", "c09", [])]),
     "C08": rust("model_checking", [("std", "c08", [])], [("std", "c08", []), ("nostd", "c08", [])]),
     "C18": rust("model_checking", [("std", "c18", [])]),
-    "C12": rust("model_checking", [("std", "c12", [])], [("std", "c12", []), ("nostd", "c12", [])]),
+    "C12": gen("c12"),
     "C13": rust("model_checking", [("std", "c13", [])], [("std", "c13", []), ("nostd", "c13", [])]),
     "C11": rust("fault_enumeration", [("std", "c11", [])]),
     "C03": rust("model_checking", [("std", "c03", [])], [("std", "c03", []), ("nostd", "c03", [])]),
@@ -46,7 +47,7 @@ CHECKS = {
 
 def build_all():
     """Build every harness binary for every variant it is used in (setup)."""
-    wanted = {}
+    wanted = {"std": {"c12"}, "nostd": {"c12"}, "nolock": {"c14n"}}
     for pid, fn in CHECKS.items():
         plans = getattr(fn, "plans", None)
         if not plans:
